@@ -49,8 +49,12 @@ Definition ser_coder (c : coder) : bytes :=
   | Some p => (lenN (c_id c) + 32) :: c_id c ++ enc_num (lenN p) ++ p
   | None => lenN (c_id c) :: c_id c
   end.
-(* single-coder folders (no bind pairs) *)
-Definition ser_folder (f : folder) : bytes := enc_num (lenN (f_coders f)) ++ flat_map ser_coder (f_coders f).
+(* bind pairs of a coder chain, as the writer emits them: for i in 0..n-2 the numbers i+1, i *)
+Fixpoint bp_upto (k : nat) : list N :=
+  match k with O => [] | S k' => bp_upto k' ++ [N.of_nat (S k'); N.of_nat k'] end.
+Definition bind_pairs (cs : list coder) : list N := bp_upto (List.length cs - 1).
+Definition ser_folder (f : folder) : bytes :=
+  enc_num (lenN (f_coders f)) ++ flat_map ser_coder (f_coders f) ++ enc_nums (bind_pairs (f_coders f)).
 
 Definition ser_pack (pk : N * list N) : bytes :=
   [6] ++ enc_num (fst pk) ++ enc_num (lenN (snd pk))
@@ -109,7 +113,7 @@ Definition wf_archive (crc32 : bytes -> N) (area hb : bytes) : bool :=
 Definition wf_coder (c : coder) : bool :=
   (lenN (c_id c) <=? 15) && match c_props c with Some p => num_ok (lenN p) | None => true end.
 Definition wf_folder (f : folder) : bool :=
-  (lenN (f_coders f) =? 1) && forallb wf_coder (f_coders f)
+  num_ok (lenN (f_coders f)) && forallb wf_coder (f_coders f)
   && (lenN (f_unpack f) =? lenN (f_coders f)) && forallb num_ok (f_unpack f).
 Definition wf_pack (pk : N * list N) : bool :=
   num_ok (fst pk) && num_ok (lenN (snd pk)) && forallb num_ok (snd pk).
